@@ -91,7 +91,7 @@ func initDate() {
 		"+",
 		func(_ *Thread, args []value.Value) (value.Value, value.Value) {
 			self := args[0].AsDate()
-			return self.AddDateSpan(args[1].AsDateSpan()).ToValue(), value.Undefined
+			return value.ToValueErr(self.AddDateSpanErr(args[1].AsDateSpan()))
 		},
 		DefWithParameters(1),
 	)
